@@ -176,59 +176,172 @@ def pollIn (s : St) (timeout : Int) (e : Entry) : PollIn :=
   let efd := s.eventfd != 0
   { events := evs, eventfd := efd, dt := if evs.isEmpty && !efd then timeout else e.dt }
 
-def runLoop : Nat → St → C13.Outcome → List Entry → List String → St × List String
-  | 0, s, _, _, acc => (s, acc ++ ["FUEL"])
-  | fuel + 1, s, o, es, acc =>
+
+/-! ### branch tags: which branch of run() / Poll::poll / the dispatch switch a step of the model takes, and the rare
+    situations the generators must reach.  Diagnostics only (op `branches`); the theorems do not depend on them. -/
+
+def isRm (i : Id) : Act → Bool
+  | .rmClient j => j == i
+  | _ => false
+
+def isRmTimer (i : Id) : Act → Bool
+  | .rmTimer j => j == i
+  | _ => false
+
+def isMkTimer : Act → Bool
+  | .mkTimer _ _ => true
+  | _ => false
+
+def scriptOf (s : St) (i : Id) : List Act := s.scripts i (s.calls i)
+
+def handOverTags (pre : String) (s : St) (i : Id) : List String :=
+  let acts := scriptOf s i
+  if acts.any (fun a => match a with | .rmNew => true | _ => false) then [pre ++ ".removed"]
+  else if acts.any isRetNull then [pre ++ ".null"] else [pre ++ ".kept"]
+
+def dispatchTags (s : St) (ev : Option (Id × Flags)) (o : C13.Outcome) : List String :=
+  match ev with
+  | none => if s.interrupted then ["d.none.return"] else ["d.none.continue"]
+  | some (i, fl) =>
+    if fl.isZero then (if s.interrupted then ["d.zeroflags.return"] else ["d.zeroflags.continue"])
+    else if fl.r then
+      ["d.read"] ++ (if (scriptOf s i).any (isRm i) then ["x.remove_self_in_onRead"] else [])
+    else if fl.w then
+      match s.clients i with
+      | none => ["d.write.fault"]
+      | some c =>
+        (if c.suspended then ["x.write_event_for_suspended_client"] else []) ++
+        (if c.backlog != 0 then
+          match sendOn c c.backlog o with
+          | .wouldblock => ["d.write.wouldblock"]
+          | .error => ["d.write.error.onClosed"] ++ (if (scriptOf s i).any (isRm i) then ["x.remove_self_in_onClosed"] else [])
+          | .sent 0 => ["d.write.sent0.onClosed"]
+          | .sent (k + 1) =>
+            if c.backlog - (k + 1) = 0 then
+              ["d.write.drained.onWrite"] ++ (if (scriptOf s i).any (isRm i) then ["x.remove_self_in_onWrite"] else [])
+            else ["d.write.partial"]
+        else ["d.write.empty.onWrite"])
+    else if fl.a then
+      match s.listeners i with
+      | none => ["d.accept.fault"]
+      | some l => if l.pending = 0 then ["d.accept.failed"] else handOverTags "d.accept" s i
+    else
+      match s.ests i with
+      | none => ["d.connect.fault"]
+      | some e => if !e.connected then ["d.connect.error.onAbolished"] else handOverTags "d.connect" s i
+
+def stepTags (s : St) (inp : PollIn) (o : C13.Outcome) : List String :=
+  match s.pc with
+  | .idle => []
+  | .timers now =>
+    match s.queue with
+    | [] => ["t.fault"]
+    | (k, v) :: rest =>
+      if k - now ≤ 0 then
+        match v with
+        | some t =>
+          let acts := scriptOf s t
+          ["t.user"] ++
+          (match rest with
+           | (k2, some _) :: _ => if k2 = k then ["x.two_timers_due_same_tick"] else []
+           | _ => []) ++
+          (if acts.any (isRmTimer t) then ["x.timer_removes_itself"] else []) ++
+          (if acts.any (fun a => match a with
+              | .rmTimer u => u != t && (match s.timers u with | some tu => decide (tu.exec - now ≤ 0) | none => false)
+              | _ => false) then ["x.timer_removes_another_due_timer"] else []) ++
+          (if acts.any isMkTimer then ["x.timer_created_in_onActivated"] else [])
+        | none => ["t.default"]
+      else ["t.done"]
+  | .closing _ _ =>
+    match s.closing with
+    | [] => ["c.empty"]
+    | c :: _ =>
+      match s.clients c with
+      | some cl =>
+        if cl.hasCb && !cl.removed then
+          ["c.onClosed"] ++ (if (scriptOf s c).any isMkTimer then ["x.timer_created_in_onClosed"] else []) ++
+          (if (scriptOf s c).any (isRm c) then ["x.remove_self_in_onClosed"] else [])
+        else ["c.delete"]
+      | none => ["c.fault"]
+  | .poll _ _ =>
+    let (s1, ev) := pollStep s inp
+    (match s.selected with
+     | [] =>
+       let sel := appendSelected s inp.events []
+       let intr := inp.eventfd && s.eventfd != 0
+       if intr then (if sel.isEmpty then ["p.query.eventfd"] else ["p.query.eventfd+events", "x.interrupt_with_events_of_the_same_epoll_wait"])
+       else if sel.isEmpty then ["p.query.timeout"] else ["p.query.events"]
+     | _ => ["p.pending"] ++ (if s.interrupted then ["x.interrupt_pending_while_batch_drains"] else [])) ++
+    dispatchTags s1 ev o
+
+def bump (l : List (String × Nat)) (k : String) : List (String × Nat) :=
+  match l with
+  | [] => [(k, 1)]
+  | (k', n) :: r => if k' == k then (k', n + 1) :: r else (k', n) :: bump r k
+
+def bumpAll (l : List (String × Nat)) (ks : List String) : List (String × Nat) := ks.foldl bump l
+
+abbrev Tags := List (String × Nat)
+
+def runLoop : Nat → St → C13.Outcome → List Entry → List String → Tags → St × List String × Tags
+  | 0, s, _, _, acc, tg => (s, acc ++ ["FUEL"], tg)
+  | fuel + 1, s, o, es, acc, tg =>
     match s.pc with
-    | .idle => (s, acc)
+    | .idle => (s, acc, tg)
     | .poll _ timeout =>
       if s.selected.isEmpty then
         let (e, es') : Entry × List Entry := match es with
           | e :: r => (e, r)
           | [] => ({ intr := true, ids := [], dt := 0 }, [])
         let s0 := if e.intr then interrupt s else s
-        let (s', evs) := step s0 (pollIn s0 timeout e) o
-        runLoop fuel s' o es' (acc ++ evs.map (evStr s'.clock))
+        let inp := pollIn s0 timeout e
+        let (s', evs) := step s0 inp o
+        runLoop fuel s' o es' (acc ++ evs.map (evStr s'.clock)) (bumpAll tg (stepTags s0 inp o))
       else
         let (s', evs) := step s {} o
-        runLoop fuel s' o es (acc ++ evs.map (evStr s'.clock))
+        runLoop fuel s' o es (acc ++ evs.map (evStr s'.clock)) (bumpAll tg (stepTags s {} o))
     | _ =>
       let (s', evs) := step s {} o
-      runLoop fuel s' o es (acc ++ evs.map (evStr s'.clock))
+      runLoop fuel s' o es (acc ++ evs.map (evStr s'.clock)) (bumpAll tg (stepTags s {} o))
 
 def out (s : St) (res : String) : String :=
   if s.fault then "MODEL-FAULT" else s!"{res} | {liveStr s}"
 
-def stepLine (s : St) (ws : List String) : Option (St × String) :=
+def tagsStr (tg : Tags) : String :=
+  if tg.isEmpty then "-" else " ".intercalate (tg.map fun p => s!"{p.1}={p.2}")
+
+def stepLine (s : St) (tg : Tags) (ws : List String) : Option (St × String × Tags) :=
   match ws with
   | ["script", i, k, acts] => do
     let s' := setScript s (← i.toNat?) (← k.toNat?) (← parseActs acts)
-    pure (s', out s' "ok")
+    pure (s', out s' "ok", tg)
   | ["act", a] => do
     let s' := applyAct s none (← parseAct a)
-    pure (s', out s' "ok")
-  | ["mkpair", i] => do let s' := mkPair s (← i.toNat?); pure (s', out s' "ok")
-  | ["mklisten", i] => do let s' := mkListener s (← i.toNat?); pure (s', out s' "ok")
-  | ["mkconn", i] => do let s' := mkEst s (← i.toNat?); pure (s', out s' "ok")
+    pure (s', out s' "ok", tg)
+  | ["mkpair", i] => do let s' := mkPair s (← i.toNat?); pure (s', out s' "ok", tg)
+  | ["mklisten", i] => do let s' := mkListener s (← i.toNat?); pure (s', out s' "ok", tg)
+  | ["mkconn", i] => do let s' := mkEst s (← i.toNat?); pure (s', out s' "ok", tg)
   | ["psend", i, n] => do
     let n ← n.toNat?
     if n = 0 then none
-    let s' := envStep s (.peerSend (← i.toNat?) n); pure (s', out s' "ok")
-  | ["pclose", i] => do let s' := envStep s (.peerClose (← i.toNat?)); pure (s', out s' "ok")
-  | ["dial", i] => do let s' := envStep s (.dial (← i.toNat?)); pure (s', out s' "ok")
-  | ["adv", d] => do let s' := envStep s (.advance (← d.toNat?)); pure (s', out s' "ok")
-  | ["cfail", i] => do let s' := envStep s (.connFail (← i.toNat?)); pure (s', out s' "ok")
+    let s' := envStep s (.peerSend (← i.toNat?) n); pure (s', out s' "ok", tg)
+  | ["pclose", i] => do let s' := envStep s (.peerClose (← i.toNat?)); pure (s', out s' "ok", tg)
+  | ["dial", i] => do let s' := envStep s (.dial (← i.toNat?)); pure (s', out s' "ok", tg)
+  | ["adv", d] => do let s' := envStep s (.advance (← d.toNat?)); pure (s', out s' "ok", tg)
+  | ["cfail", i] => do let s' := envStep s (.connFail (← i.toNat?)); pure (s', out s' "ok", tg)
   | ["runmt", d] => do
     -- a second thread calls interrupt() <d> microseconds after it was started, concurrently with run();
     -- no virtual time passes and the kernel reports nothing but the event descriptor
     let _ ← d.toNat?
-    let (s', evs) := runLoop 100000 (enterRun (interrupt s)) .all [] []
-    pure (s', out s' (if evs.isEmpty then "-" else " ".intercalate evs))
+    let (s', evs, tg') := runLoop 100000 (enterRun (interrupt s)) .all [] [] tg
+    pure (s', out s' (if evs.isEmpty then "-" else " ".intercalate evs), tg')
   | "run" :: o :: entries => do
     let o ← C13.parseOutcome o
     let es ← entries.mapM parseEntry
-    let (s', evs) := runLoop 100000 (enterRun s) o es []
-    pure (s', out s' (if evs.isEmpty then "-" else " ".intercalate evs))
+    let (s', evs, tg') := runLoop 100000 (enterRun s) o es [] tg
+    pure (s', out s' (if evs.isEmpty then "-" else " ".intercalate evs), tg')
+  -- diagnostics (model driver only): branch-hit counters of all run ops since the process started
+  | ["branches"] => some (s, tagsStr tg, tg)
   | _ => none
 
 end C14
@@ -236,10 +349,11 @@ end C14
 structure DState where
   s13 : C13.St := C13.init
   s14 : C14.St := C14.init
+  tags : C14.Tags := []
 
 def stepLine (st : DState) (ws : List String) : DState × String :=
   match ws with
-  | ["reset"] => ({}, "ok")
+  | ["reset"] => ({ tags := st.tags }, "ok")
   | _ =>
     match C13.parseOp ws with
     | some op =>
@@ -247,8 +361,8 @@ def stepLine (st : DState) (ws : List String) : DState × String :=
       | some (s', o) => ({ st with s13 := s' }, C13.obs s' o)
       | none => (st, "bad-op")
     | none =>
-      match C14.stepLine st.s14 ws with
-      | some (s', o) => ({ st with s14 := s' }, o)
+      match C14.stepLine st.s14 st.tags ws with
+      | some (s', o, tg) => ({ st with s14 := s', tags := tg }, o)
       | none => (st, "bad-op")
 
 end Nstd.Server
